@@ -166,3 +166,5 @@ def run(chk):
     C15c.run(chk)
     from . import C15d
     C15d.run(chk)
+    from . import C15e
+    C15e.run(chk)
